@@ -9,7 +9,10 @@ use std::time::{Duration, Instant};
 
 use serde_json::{json, Map, Value};
 
+use crate::shim;
 use crate::util::Scratch;
+
+static LAST_PANIC: std::sync::Mutex<(String, String)> = std::sync::Mutex::new((String::new(), String::new()));
 
 #[derive(Clone, Copy, Debug, PartialEq, Eq)]
 pub enum Tier {
@@ -157,6 +160,11 @@ pub trait Monitor {
     fn exhaustive(&self, _tier: Tier) -> bool {
         false
     }
+    /// Is a panic of the library inside a live call / read accessor a violation of THIS
+    /// property (C05: every call conforms; C10 judges panics in its own children)?
+    fn library_panic_is_violation(&self) -> bool {
+        false
+    }
     /// Wall-clock watchdog for one shard (inconclusive when it fires).
     fn watchdog(&self, tier: Tier) -> Duration {
         Duration::from_secs(tier.pick(1500, 6 * 3600))
@@ -198,6 +206,15 @@ pub fn run_shard(mon: &dyn Monitor, tier: Tier, seed: u64, first: u64, step: u64
         dev_build: is_dev_build(),
         replaying: false,
     };
+    // library panics are caught and judged by the monitors; keep stderr quiet but remember
+    // where the last one happened
+    std::panic::set_hook(Box::new(|info| {
+        if let Ok(mut g) = LAST_PANIC.lock() {
+            let loc = info.location().map(|l| format!("{}:{}", l.file(), l.line())).unwrap_or_default();
+            let msg = info.payload().downcast_ref::<String>().cloned().or_else(|| info.payload().downcast_ref::<&str>().map(|s| s.to_string())).unwrap_or_default();
+            *g = (loc, msg);
+        }
+    }));
     let mut acc = Acc::new();
     if let Ok(k) = load_known(&ctx.verif_root, mon.id()) {
         acc.known = k.into_iter().filter(|k| k.status == "known").map(|k| k.signature).collect();
@@ -206,7 +223,27 @@ pub fn run_shard(mon: &dyn Monitor, tier: Tier, seed: u64, first: u64, step: u64
     let mut case = first;
     let mut ncases = 0u64;
     while case < end {
-        mon.run_case(&ctx, case, &mut acc);
+        let r = std::panic::catch_unwind(std::panic::AssertUnwindSafe(|| mon.run_case(&ctx, case, &mut acc)));
+        if r.is_err() {
+            // a panic escaped a monitor: either the library panicked inside a read accessor /
+            // call the monitor did not guard, or the harness itself is wrong
+            let (loc, msg) = LAST_PANIC.lock().map(|g| g.clone()).unwrap_or_default();
+            let in_library = loc.starts_with("/repo/") || loc.contains("/mrecordlog/") || loc.starts_with(&std::env::var("VERIF_REPO_PREFIX").unwrap_or_else(|_| "\u{0}".into()));
+            let short_loc = loc.rsplit_once("/src/").map(|x| format!("src/{}", x.1)).unwrap_or(loc.clone());
+            if in_library && mon.library_panic_is_violation() {
+                acc.violation(
+                    format!("{}/library-panicked/{} @ {}", mon.id(), msg.chars().take(80).collect::<String>(), short_loc),
+                    case,
+                    json!({"panic": msg, "location": loc, "note": "the library panicked inside a call or read accessor during this case"}),
+                );
+            } else if in_library {
+                acc.inconclusive(format!("the library panicked at {} ({}): C05/C10 territory", short_loc, msg.chars().take(60).collect::<String>()));
+            } else {
+                acc.inconclusive(format!("HARNESS BUG: monitor panicked at {} ({})", loc, msg.chars().take(80).collect::<String>()));
+                acc.count("harness_panics");
+            }
+            shim::pause(true);
+        }
         ncases += 1;
         case += step;
     }
@@ -439,6 +476,9 @@ pub fn run_parent(mon: &dyn Monitor, tier: Tier, seed: u64) -> i32 {
         new_violations.push((v.clone(), path));
     }
 
+    if merged.get("harness_panics") > 0 {
+        hard_inconclusive.push(format!("{} case(s) ended in a panic inside the harness itself (see inconclusive_case_reasons)", merged.get("harness_panics")));
+    }
     // floors
     let mut floor_report = Map::new();
     let mut floors_ok = true;
